@@ -424,6 +424,13 @@ def run_shard(shard, tier, seed):
                             ctx.v(_sig('acceptance-depends-on-stored-value', t, an, 'dot'),
                                   {'class': cn, 'steps': steps, 'stored': repr(cur), 'offered': repr(twin_val)},
                                   {'fresh': rf[0], 'with_history': rh[0]})
+                        # ... nor on what was accepted anywhere else in the process: the reference decides
+                        for who, rr in (('with_history', rh), ('fresh', rf)):
+                            if rr[0] == 'ok' and not ref.valid(at, str(twin_val)):
+                                ctx.v(_sig('invalid-accepted', t, an, 'dot-equal-value-of-other-kind'),
+                                      {'class': cn, 'steps': steps, 'stored': repr(cur), 'offered': repr(twin_val)},
+                                      {'element': who})
+                                break
                         if rh[0] == 'ok':
                             model[an] = twin_val
                         ctx.c['equal_value_other_type_probes'] += 1
